@@ -172,8 +172,8 @@ func GenConfig(prop, tier string, seed uint64) Config {
 	if prop == "C52" && c.KF != "" && r.Chance(0.4) {
 		c.KF = "head-chunks-gauge-miscounts-mixed-type-ooo-chunks"
 	}
-	if prop == "C02" && c.KF != "" && r.Chance(0.3) {
-		c.KF = "stale-marker-commit-reorder"
+	if prop == "C02" && c.KF != "" && r.Chance(0.5) {
+		c.KF = []string{"stale-marker-commit-reorder", "identical-histogram-reappend-rejected-after-in-place-widening"}[r.Intn(2)]
 	}
 	switch prop {
 	case "C03":
